@@ -101,3 +101,25 @@ Proof.
     + intros [H1 [H2|H2]]; [discriminate|]. split; [exact H1|].
       destruct (memv' v (blat b)) eqn:E; [apply memv'_In in E; contradiction|reflexivity].
 Qed.
+
+(* ---------------------------------------------------------------- the batch model weights every row by its OWN column *)
+Lemma all_ok_Forall2 {A B} (f : A -> res B) (l : list A) : forall r,
+  all_ok (map f l) = Ok r -> Forall2 (fun x y => f x = Ok y) l r.
+Proof.
+  induction l as [|x l IH]; intros r H; simpl in H.
+  - inversion H. constructor.
+  - destruct (f x) as [y|e] eqn:E; [|discriminate].
+    destruct (all_ok (map f l)) as [r'|e]; [|discriminate]. inversion H; subst.
+    constructor; [exact E|apply IH; reflexivity].
+Qed.
+
+Lemma lw_evidence_node_rowwise b c e rows rows' :
+  lw_evidence_node b c e rows = Ok rows' ->
+  Forall2 (fun rw rw' => exists w, node_dist b c (lw_evid c) (fst rw) = Ok w /\
+                                   rw' = ((cvar c, e) :: fst rw, snd rw * nth e w 0)) rows rows'.
+Proof.
+  intros H. unfold lw_evidence_node in H. apply all_ok_Forall2 in H.
+  induction H as [|rw rw' rows rows' Hx _ IH]; constructor; [|exact IH].
+  destruct (node_dist b c (lw_evid c) (fst rw)) as [w|x]; [|discriminate].
+  exists w. split; [reflexivity|]. inversion Hx. reflexivity.
+Qed.
